@@ -151,21 +151,24 @@ func resourceReservationServiceAccount(
 	sa.Name = *kaiConfig.Spec.Binder.ResourceReservation.ServiceAccountName
 	sa.Namespace = *kaiConfig.Spec.Binder.ResourceReservation.Namespace
 
-	imagePullSecrets := make(map[string]bool)
+	// keep a stable order (existing secrets first, then the configured ones): a randomly ordered list differs from
+	// the object in the cluster on every reconcile and would be rewritten forever
+	seen := make(map[string]bool)
+	imagePullSecrets := make([]v1.LocalObjectReference, 0, len(sa.ImagePullSecrets))
 	for _, secret := range sa.ImagePullSecrets {
-		imagePullSecrets[secret.Name] = true
-	}
-
-	for _, secret := range kaiConfigUtils.GetGlobalImagePullSecrets(kaiConfig.Spec.Global) {
-		if !imagePullSecrets[secret.Name] {
-			imagePullSecrets[secret.Name] = true
+		if !seen[secret.Name] {
+			seen[secret.Name] = true
+			imagePullSecrets = append(imagePullSecrets, v1.LocalObjectReference{Name: secret.Name})
 		}
 	}
 
-	sa.ImagePullSecrets = make([]v1.LocalObjectReference, 0, len(imagePullSecrets))
-	for secretName := range imagePullSecrets {
-		sa.ImagePullSecrets = append(sa.ImagePullSecrets, v1.LocalObjectReference{Name: secretName})
+	for _, secret := range kaiConfigUtils.GetGlobalImagePullSecrets(kaiConfig.Spec.Global) {
+		if !seen[secret.Name] {
+			seen[secret.Name] = true
+			imagePullSecrets = append(imagePullSecrets, v1.LocalObjectReference{Name: secret.Name})
+		}
 	}
+	sa.ImagePullSecrets = imagePullSecrets
 
 	return []client.Object{sa}, nil
 }
